@@ -259,6 +259,8 @@ class Evaluator:
         else:
             params_b, defaults_b = params, defaults
         kw = dict(kwargs)
+        if any((x.single_atom() or ("",))[0] == "starred" for x in pos if isinstance(x, R)) or "**" in kw:
+            raise AnalysisError("call of %s with a starred argument whose length is not known statically (line %s)" % (fi.qualname, getattr(node, "lineno", "?")))
         for i, p in enumerate(params_b):
             if entry and not pos and p not in kw:
                 locs[p] = atom(("param", p))
@@ -519,7 +521,7 @@ class Evaluator:
         it = self.ev(s.iter, st) if is_for else None
         if is_for and not s.orelse:
             ia = it.single_atom()
-            if ia is not None and ia[0] in ("tuple", "list") and 1 <= len(ia[1]) <= 4 and not any(
+            if ia is not None and ia[0] in ("tuple", "list") and 1 <= len(ia[1]) <= 2 and not any(
                     isinstance(n, (ast.Break, ast.Return)) for n in ast.walk(s)):
                 fr.loop_n -= 1
                 return self._unrolled(s, ia[1], st)
@@ -859,6 +861,9 @@ class Evaluator:
             gv = mi.globals[name]
             if isinstance(gv, ast.Constant) and isinstance(gv.value, (str, int, float, bool, type(None))) and self._assigned_once(mi, name):
                 return const(gv.value)  # a module-level named literal (`_DRIFT = "drift"`) is the literal
+            if _pure_literal(gv, mi) and self._assigned_once(mi, name):
+                # a module-level table of literals (`_LEVELS = (("drift", 2), ("warning", 1))`), never rebound
+                return self._const_expr(gv, fr.func)
             return atom(("global", mi.name + "." + name))
         import builtins as _b
         if not hasattr(_b, name) and not self._enclosing_has(name):
@@ -921,8 +926,14 @@ class Evaluator:
             return self.prog.dotted(self.frames[-1].func.module, e)
         return None
 
+    _nt_fields = {}
+
     def mk_getattr(self, base, name, st=None, node=None):
         a = base.single_atom()
+        if a is not None and a[0] == "tuple":
+            flds = self._nt_fields.get(T.akey(base))
+            if flds is not None and name in flds:
+                return a[1][flds.index(name)]
         if a is not None and a[0] == "global":
             return atom(("global", a[1] + "." + name))
         if a is not None and a[0] == "ite":
@@ -1183,17 +1194,19 @@ class Evaluator:
     def _comp(self, kind, e, st, elts):
         fr = self.frames[-1]
         # a comprehension over a short literal collection is unrolled: [f(t) for t in (a, b)] == [f(a), f(b)]
-        if len(e.generators) == 1 and not e.generators[0].ifs and kind in ("list", "gen") and len(elts) == 1 and isinstance(e.generators[0].target, ast.Name):
+        if len(e.generators) == 1 and not e.generators[0].ifs and kind in ("list", "gen", "dict"):
             itv = self.ev(e.generators[0].iter, st)
             ia = itv.single_atom()
             if ia is not None and ia[0] in ("tuple", "list") and 1 <= len(ia[1]) <= 6:
                 sub = State(st.attrs, dict(st.locs))
                 out = []
                 for x in ia[1]:
-                    sub.locs[e.generators[0].target.id] = x
-                    out.append(self.ev(elts[0], sub))
+                    self.assign(e.generators[0].target, x, sub, e, quiet=True)
+                    out.append(tuple(self.ev(z, sub) for z in elts))
                 st.attrs = sub.attrs
-                return atom(("list", tuple(out)))
+                if kind == "dict":
+                    return atom(("dict", tuple(out)))
+                return atom(("list", tuple(o[0] for o in out)))
         sub = State(st.attrs, dict(st.locs))
         iters = []
         conds = []
@@ -1233,8 +1246,30 @@ class Evaluator:
         return v
 
     # ---------------------------------------------------------------- calls
+    def _static_getattr(self, n, st):
+        """getattr(obj, <name that is a constant string on this path>) is the attribute access obj.<name>"""
+        if isinstance(n, ast.Call) and isinstance(n.func, ast.Name) and n.func.id == "getattr" and "getattr" not in st.locs and len(n.args) == 2 and not n.keywords:
+            self.silent += 1
+            try:
+                nm = self.ev(n.args[1], st.copy())
+            finally:
+                self.silent -= 1
+            if T.is_pure_const(nm) and isinstance(T.const_py(nm), str) and T.const_py(nm).isidentifier():
+                return ast.copy_location(ast.Attribute(value=n.args[0], attr=T.const_py(nm), ctx=ast.Load()), n)
+        return None
+
     def ev_Call(self, e, st):
         f = e.func
+        g = self._static_getattr(f, st)
+        if g is not None:
+            e2 = ast.copy_location(ast.Call(func=g, args=e.args, keywords=e.keywords), e)
+            for fld in ("end_lineno", "end_col_offset"):
+                if hasattr(e, fld):
+                    setattr(e2, fld, getattr(e, fld))
+            return self.ev_Call(e2, st)
+        g = self._static_getattr(e, st)
+        if g is not None:
+            return self.ev(g, st)
         # super().m(...)
         if isinstance(f, ast.Attribute) and isinstance(f.value, ast.Call) and isinstance(f.value.func, ast.Name) and f.value.func.id == "super" and self.recv is not None:
             args, kwargs = self.ev_args(e, st)
@@ -1271,6 +1306,20 @@ class Evaluator:
             args, kwargs = self.ev_args(e, st)
             return self._call_dotted(d, args, kwargs, st, e)
         if isinstance(f, ast.Name) and f.id not in st.locs:
+            mi_ = self.frames[-1].func.module
+            nt = _namedtuple_fields(mi_.globals[f.id]) if f.id in mi_.globals else None
+            if nt is not None:
+                # a module-level namedtuple: its instances are tuples whose fields can also be read by name
+                args, kwargs = self.ev_args(e, st)
+                vals = list(args) + [None] * (len(nt) - len(args))
+                for k_, v_ in kwargs.items():
+                    if k_ in nt and vals[nt.index(k_)] is None:
+                        vals[nt.index(k_)] = v_
+                if len(vals) != len(nt) or any(v_ is None for v_ in vals):
+                    raise AnalysisError("namedtuple %s constructed with arguments that cannot be bound at line %d" % (f.id, e.lineno))
+                t_ = atom(("tuple", tuple(vals)))
+                self._nt_fields[T.akey(t_)] = tuple(nt)
+                return t_
             args, kwargs = self.ev_args(e, st)
             return self._call_builtin(f.id, args, kwargs, st, e)
         if isinstance(f, ast.Attribute):
@@ -1386,6 +1435,13 @@ class Evaluator:
             return args[0]
         if d == "bool" and len(args) == 1 and not kwargs and T._boolish(args[0]):
             return args[0]
+        if d == "getattr" and len(args) in (2, 3) and not kwargs and self.frames and len(self.frames) == 1 and \
+                (args[1].single_atom() or ("",))[0] == "param":
+            # a helper taking the attribute name as a parameter, evaluated on its own: the read is opaque here (its call sites,
+            # where the name is a constant, are resolved by _static_getattr)
+            res = atom(("call", "getattr", tuple(args), ()))
+            self.emit("call", node, callee=("lib", "getattr"), fi=None, args=tuple(args), kwargs=(), result=res)
+            return res
         if d == "getattr" or d == "setattr":
             raise AnalysisError("dynamic attribute access (%s) at line %d" % (d, node.lineno))
         if d == "slice" and not kwargs and 1 <= len(args) <= 3:
@@ -1533,6 +1589,37 @@ class Evaluator:
             else:
                 self.emit("localmut", node, name=None, how="method:" + name, path=tuple(path), value=atom(("tuple", tuple(args))), aug=None, old=recv, kwargs=_kw(kwargs))
         return res
+
+
+def _pure_literal(n, mi, depth=0):
+    """an expression built only from constants, other module-level named literals and tuple / list / dict / set displays"""
+    if depth > 6:
+        return False
+    if isinstance(n, ast.Constant):
+        return isinstance(n.value, (str, int, float, bool, type(None)))
+    if isinstance(n, (ast.Tuple, ast.List, ast.Set)):
+        return all(_pure_literal(x, mi, depth + 1) for x in n.elts)
+    if isinstance(n, ast.Dict):
+        return all(k is not None and _pure_literal(k, mi, depth + 1) and _pure_literal(v, mi, depth + 1) for k, v in zip(n.keys, n.values))
+    if isinstance(n, ast.UnaryOp) and isinstance(n.op, (ast.USub, ast.UAdd)):
+        return _pure_literal(n.operand, mi, depth + 1)
+    if isinstance(n, ast.Name) and n.id in mi.globals and n.id not in mi.imports:
+        return _pure_literal(mi.globals[n.id], mi, depth + 1)
+    return False
+
+
+def _namedtuple_fields(n):
+    """['a', 'b'] for the expression namedtuple("N", ["a", "b"]) / namedtuple("N", "a b"), else None"""
+    if not (isinstance(n, ast.Call) and (isinstance(n.func, ast.Name) and n.func.id == "namedtuple" or isinstance(n.func, ast.Attribute) and n.func.attr == "namedtuple")):
+        return None
+    if len(n.args) != 2 or n.keywords:
+        return None
+    f = n.args[1]
+    if isinstance(f, ast.Constant) and isinstance(f.value, str):
+        return f.value.replace(",", " ").split()
+    if isinstance(f, (ast.List, ast.Tuple)) and all(isinstance(x, ast.Constant) and isinstance(x.value, str) for x in f.elts):
+        return [x.value for x in f.elts]
+    return None
 
 
 _ARRAY_REDUCTIONS = frozenset(("sum", "mean", "std", "var", "cumsum", "prod", "argmax", "argmin"))
